@@ -413,6 +413,23 @@ func c19File1(c *ctx, f c19File, opt c19Opts, d *Driver, impl *[]string) {
 		return
 	}
 	add(c19IndexStr(idx, false), "c19.index %s", hexs(data))
+	// the index must not depend on how the source delivers its bytes (io.Reader contract: any chunking, and
+	// the last bytes may come together with io.EOF, as gzip/flate readers and iotest.DataErrReader do)
+	for _, pat := range []string{"data-with-eof", "one-byte", "chunks-with-eof", "chunks"} {
+		var idx2 fai.Index
+		var err2 error
+		src := &c19ChunkReader{data: data, pat: pat, rnd: newRand(int64(len(data))*31 + int64(len(pat)))}
+		o2 := guard(func() { idx2, err2 = fai.NewIndex(src) })
+		r.hist("newindex.source." + pat)
+		switch {
+		case o2.panicked:
+			r.fail("fai.newindex.source-dependent."+pat+".panic", "NewIndex panics on a source delivering "+pat+": "+o2.panicVal, in())
+		case err2 != nil:
+			r.fail("fai.newindex.source-dependent."+pat+".error", fmt.Sprintf("NewIndex accepts the file from a bytes.Reader and rejects it from a source delivering %s: %v", pat, err2), in())
+		case c19IndexStr(idx2, false) != c19IndexStr(idx, false):
+			r.fail("fai.newindex.source-dependent."+pat, fmt.Sprintf("NewIndex over a source delivering %s gives %s, over a bytes.Reader %s", pat, c19IndexStr(idx2, false), c19IndexStr(idx, false)), in())
+		}
+	}
 	if len(idx) != len(truth) {
 		r.fail("fai.index.count", fmt.Sprintf("%d records indexed, file has %d", len(idx), len(truth)), in())
 	}
@@ -1336,4 +1353,41 @@ func c19Replay(c *ctx, in c19Input) {
 		}
 	}
 	r.eval("replay", true)
+}
+
+// c19ChunkReader delivers data in a pattern the io.Reader contract allows: the whole rest or the last chunk
+// together with io.EOF, one byte per call, random chunk sizes.
+type c19ChunkReader struct {
+	data []byte
+	pat  string
+	rnd  *Rand
+	off  int
+}
+
+func (c *c19ChunkReader) Read(p []byte) (int, error) {
+	if c.off >= len(c.data) {
+		return 0, io.EOF
+	}
+	n := len(p)
+	switch c.pat {
+	case "one-byte":
+		n = 1
+	case "chunks", "chunks-with-eof":
+		n = c.rnd.rng(1, 7)
+		if c.rnd.coin(1, 4) {
+			n = c.rnd.rng(1, 5000)
+		}
+	}
+	if n > len(p) {
+		n = len(p)
+	}
+	if n > len(c.data)-c.off {
+		n = len(c.data) - c.off
+	}
+	copy(p, c.data[c.off:c.off+n])
+	c.off += n
+	if c.off == len(c.data) && (c.pat == "data-with-eof" || c.pat == "chunks-with-eof") {
+		return n, io.EOF
+	}
+	return n, nil
 }
